@@ -18,28 +18,28 @@ variable {C : Type}
 index is handled by exactly one rank -/
 theorem c04_slices_partition (total P : Nat) (hP : 1 ≤ P) :
     (List.range P).flatMap (slice total P) = List.range total := by
-  sorry
+  exact slices_partition total P hP
 
 theorem c04_slice_bounds (total P r : Nat) :
     sliceLo total P r ≤ sliceHi total P r ∧ sliceHi total P r ≤ total := by
-  sorry
+  exact slice_bounds total P r
 
 /-- consecutive ranks' slices are adjacent, the first starts at 0, the last ends at `total` -/
 theorem c04_slices_adjacent (total P : Nat) (hP : 1 ≤ P) :
     sliceLo total P 0 = 0 ∧ sliceHi total P (P - 1) = total ∧
     ∀ r, r + 1 < P → sliceHi total P r = sliceLo total P (r + 1) := by
-  sorry
+  exact slices_adjacent total P hP
 
 /-- the MPI minimum operator is associative and commutative on weights, not-found is its identity -/
 theorem c04_minop_assoc (a b c : Cyc C) :
     wOf (minOpMpi (minOpMpi a b) c) = wOf (minOpMpi a (minOpMpi b c)) := by
-  sorry
+  exact minOpMpi_assoc_w a b c
 
 theorem c04_minop_comm (a b : Cyc C) : wOf (minOpMpi a b) = wOf (minOpMpi b a) := by
-  sorry
+  exact minOpMpi_comm_w a b
 
 theorem c04_minop_ident (a : Cyc C) : minOpMpi none a = a ∧ minOpMpi a none = a := by
-  sorry
+  exact minOpMpi_ident a
 
 /-- **every rank count, every schedule, every reduction tree**: if the per-index searches meet the
 sequential contract on `[0,total)`, the value rank 0 receives has the optimum weight `μ` -/
@@ -48,26 +48,26 @@ theorem c04_phase (srch : Nat → Option Int → Cyc C) (total P : Nat) (hP : 1 
     (scheds : Nat → Sched) (hs : ∀ r, r < P → (scheds r).Covers (sliceLo total P r) (sliceHi total P r))
     (t : RTree) (ht : t.leaves.Perm (List.range P)) :
     wOf (mpiPhase srch scheds t) = some μ := by
-  sorry
+  exact mpiPhase_w srch total P hP μ hc.sound hc.complete scheds hs t ht
 
 /-- **layout independence after the repair**: when every rank enumerates the signed edges in the same
 order (ForestIndex order), the ranks together search exactly the (edge, hidden set) pairs of the
 sequential heuristic -/
 theorem c04_pairs_same_order (σ : List Nat) (P : Nat) (hP : 1 ≤ P) :
     (List.range P).flatMap (rankPairs (fun _ => σ) σ.length P) = hiddenPairs σ := by
-  sorry
+  exact pairs_same_order σ P hP
 
 /-- **the defect of the pinned code**: with per-rank orders (pointer order of the edge descriptors) two
 ranks can leave an edge unsearched — `b` below is searched by nobody -/
 theorem c04_pairs_layout_counterexample :
     let σ : Nat → List Nat := fun r => if r = 0 then [7, 9] else [9, 7]
     ∀ p ∈ (List.range 2).flatMap (rankPairs σ 2 2), p.1 ≠ 9 := by
-  sorry
+  decide
 
 /-- every rank enters the same sequence of collectives (it depends only on broadcast data), so no
 rank is left waiting inside a collective -/
 theorem c04_collectives_aligned (r r' : Nat) (sizes : List Nat) (N : Nat) :
     signedScript r sizes = signedScript r' sizes ∧ treesScript r N = treesScript r' N := by
-  sorry
+  exact ⟨rfl, rfl⟩
 
 end Parmcb.C04
